@@ -125,6 +125,12 @@ func serve() {
 	}
 	rd := bufio.NewReaderSize(in, 1<<16)
 	wr := bufio.NewWriter(out)
+	// tell the parent that start-up (process start, package init, warm-up) is
+	// over: the per-call limits must not include it
+	wr.WriteString("{\"seq\":0}\n")
+	if wr.Flush() != nil {
+		return
+	}
 	for {
 		line, err := rd.ReadBytes('\n')
 		if len(line) == 0 && err != nil {
@@ -309,7 +315,101 @@ func Start(o Options) (*Worker, error) {
 		_ = cmd.Wait() // also waits for the stderr copy
 		close(w.waited)
 	}()
+	// wait for the ready line; start-up of the (large) test binary takes
+	// seconds on a loaded machine
+	select {
+	case _, ok := <-w.lines:
+		if !ok {
+			w.dead = true
+			var r CallResult
+			w.exitInfo(&r)
+			return nil, fmt.Errorf("worker ended during start-up (exit %d %s): %s", r.ExitCode, r.Signal, clipTail(r.Stderr, 2000))
+		}
+	case <-time.After(StartupLimit):
+		w.Kill()
+		return nil, fmt.Errorf("worker not ready after %v", StartupLimit)
+	}
 	return w, nil
+}
+
+// StartupLimit bounds the wait for a worker's ready line.
+var StartupLimit = 10 * time.Minute
+
+func clipTail(s string, n int) string {
+	if len(s) > n {
+		return "…" + s[len(s)-n:]
+	}
+	return s
+}
+
+// cpuTicks returns the CPU time (user+system, clock ticks of 10 ms) a process
+// has used, or -1.
+func cpuTicks(pid int) int64 {
+	b, err := os.ReadFile("/proc/" + strconv.Itoa(pid) + "/stat")
+	if err != nil {
+		return -1
+	}
+	// the command name (field 2) may contain spaces; fields are counted from
+	// the closing parenthesis
+	i := bytes.LastIndexByte(b, ')')
+	if i < 0 {
+		return -1
+	}
+	f := strings.Fields(string(b[i+1:]))
+	if len(f) < 13 {
+		return -1
+	}
+	ut, _ := strconv.ParseInt(f[11], 10, 64)
+	st, _ := strconv.ParseInt(f[12], 10, 64)
+	return ut + st
+}
+
+// limiter decides when a process has used up its time bound. The bound is
+// meant as "limit of work", so it is measured in CPU time of the process, which
+// does not depend on how loaded the machine is; a process that is not using
+// the CPU at all (sleeping, deadlocked, waiting for input) is cut off after
+// the same amount of wall-clock time; and a hard wall-clock cap of 12x the
+// limit ends everything else.
+type limiter struct {
+	pid     int
+	limit   time.Duration
+	start   time.Time
+	cpu0    int64
+	samples []sample
+}
+
+type sample struct {
+	at  time.Time
+	cpu int64
+}
+
+func newLimiter(pid int, limit time.Duration) *limiter {
+	return &limiter{pid: pid, limit: limit, start: time.Now(), cpu0: cpuTicks(pid)}
+}
+
+// expired is polled (every 50-100 ms).
+func (l *limiter) expired() bool {
+	now := time.Now()
+	wall := now.Sub(l.start)
+	if wall >= 12*l.limit {
+		return true
+	}
+	cpu := cpuTicks(l.pid)
+	if cpu < 0 || l.cpu0 < 0 {
+		return wall >= l.limit // no /proc: plain wall clock
+	}
+	if time.Duration(cpu-l.cpu0)*10*time.Millisecond >= l.limit {
+		return true
+	}
+	l.samples = append(l.samples, sample{now, cpu})
+	// idle: less than 50 ms of CPU during the last `limit` of wall time
+	for len(l.samples) > 1 && now.Sub(l.samples[1].at) >= l.limit {
+		l.samples = l.samples[1:]
+	}
+	if first := l.samples[0]; now.Sub(first.at) >= l.limit && cpu-first.cpu < 5 {
+		return true
+	}
+	return false
 }
 
 // Alive reports whether the worker can take another call.
@@ -339,7 +439,9 @@ func (w *Worker) exitInfo(r *CallResult) {
 	}
 }
 
-// Call sends one request and waits for its response for at most timeout. On
+// Call sends one request and waits for its response. timeout is a bound on the
+// work of the call: CPU time used by the worker, or wall-clock time while the
+// worker is idle, with a hard wall-clock cap of 12x timeout (see limiter). On
 // Timeout or Died the worker is gone and must be replaced by the caller.
 func (w *Worker) Call(op string, req any, timeout time.Duration) CallResult {
 	var r CallResult
@@ -361,8 +463,9 @@ func (w *Worker) Call(op string, req any, timeout time.Duration) CallResult {
 	// non-stdio descriptors); the response wait below then sees the closed
 	// channel
 	go func() { _, _ = w.reqW.Write(line) }()
-	timer := time.NewTimer(timeout)
-	defer timer.Stop()
+	lim := newLimiter(w.cmd.Process.Pid, timeout)
+	tick := time.NewTicker(50 * time.Millisecond)
+	defer tick.Stop()
 	for {
 		select {
 		case l, ok := <-w.lines:
@@ -385,7 +488,10 @@ func (w *Worker) Call(op string, req any, timeout time.Duration) CallResult {
 			}
 			r.Status, r.Data, r.Err, r.Goroutines = OK, rs.Data, rs.Err, rs.Goroutines
 			return r
-		case <-timer.C:
+		case <-tick.C:
+			if !lim.expired() {
+				continue
+			}
 			w.dead = true
 			w.reqW.Close()
 			_ = w.cmd.Process.Kill()
@@ -523,8 +629,9 @@ func PanicSite(stack string) string {
 	return "unknown"
 }
 
-// RunCLI runs a command with a time limit and returns its combined output,
-// exit code and whether it timed out. Used to confirm findings against the
+// RunCLI runs a command with a limit (CPU time / idle time / 12x wall cap, see
+// limiter) and returns its combined output, exit code and whether it was cut
+// off. Used to confirm findings against the
 // real ego binary.
 func RunCLI(dir string, env []string, stdin []byte, timeout time.Duration, name string, args ...string) (out string, code int, timedOut bool, err error) {
 	cmd := exec.Command(name, args...)
@@ -542,12 +649,22 @@ func RunCLI(dir string, env []string, stdin []byte, timeout time.Duration, name 
 	}
 	done := make(chan struct{})
 	go func() { _ = cmd.Wait(); close(done) }()
-	select {
-	case <-done:
-	case <-time.After(timeout):
-		timedOut = true
-		_ = syscall.Kill(-cmd.Process.Pid, syscall.SIGKILL)
-		<-done
+	lim := newLimiter(cmd.Process.Pid, timeout)
+	tick := time.NewTicker(100 * time.Millisecond)
+	defer tick.Stop()
+wait:
+	for {
+		select {
+		case <-done:
+			break wait
+		case <-tick.C:
+			if lim.expired() {
+				timedOut = true
+				_ = syscall.Kill(-cmd.Process.Pid, syscall.SIGKILL)
+				<-done
+				break wait
+			}
+		}
 	}
 	code = -1
 	if cmd.ProcessState != nil {
